@@ -34,7 +34,7 @@ R.cls(SPK, bases=(PRK,), fields={'context': 'Ctx', 'storage': 'Storage'})
 R.cls(FKK, bases=(PRK,), fields={'uuid': 'Uuid'})
 
 R.implements(f'{SPK}._submit_task', f'{PRK}._submit_task', self_type='Obj[SpawnProcessRunner]',
-    frame=['executor._pending_future_to_thunk', 'executor._running_id_to_future_and_process', 'Fut._state', 'Fut._ex', 'Fut._result'],
+    frame=['executor._pending_future_to_thunk', 'executor._running_id_to_future_and_process', 'Fut._state', 'Fut._ex', 'Fut._result', '@STARTED'],
     cand_locals=('results_map', 'filtered_context'),
     at_call={'submit': [
         C("implies(not use_cache, forall('Task', lambda d: implies((d in deps(Inst_to_Task(task))) and (d in RES(self)), (d in results_map) and (results_map[d] == RES(self)[d]))))",
@@ -44,5 +44,73 @@ R.implements(f'{SPK}._submit_task', f'{PRK}._submit_task', self_type='Obj[SpawnP
     ]},
     assume_after={'submit': [C("fut_task(result) == Inst_to_Task(task)", 'GHOST definition: the future created here is the future of this task (the thunk closes over `task`)')]})
 R.implements(f'{FKK}._submit_task', f'{PRK}._submit_task', self_type='Obj[ForkProcessRunner]',
-    frame=['executor._pending_future_to_thunk', 'executor._running_id_to_future_and_process', 'Fut._state', 'Fut._ex', 'Fut._result'],
+    frame=['executor._pending_future_to_thunk', 'executor._running_id_to_future_and_process', 'Fut._state', 'Fut._ex', 'Fut._result', '@STARTED'],
     assume_after={'submit': [C("fut_task(result) == Inst_to_Task(task)", 'GHOST definition: the future created here is the future of this task (the thunk closes over `task`)')]})
+
+# ---- fork backend: the child-side wrapper looks the runner's memory up by uuid and filters the context itself (C16)
+R.record('Mem', immutable={'context': 'Ctx', 'storage': 'Storage', 'results_map': 'RMapRef'}, cls='labtech.runners.process:RunnerMemory', ctor_kwargs=True, value=True)
+R.func('Mem.context', ['Mem'], 'Ctx')
+R.func('Mem.storage', ['Mem'], 'Storage')
+R.func('Mem.results_map', ['Mem'], 'RMapRef')
+R.globals['_RUNNER_FORK_MEMORY'] = 'Map[Uuid,Mem]'      # module global inherited by forked children
+R.contract('trusted:SubFn.__call__', trusted=True, self_type='SubFn',
+    params={'task': 'Inst', 'task_name': 'Str', 'use_cache': 'Bool', 'results_map': 'RMapRef', 'filtered_context': 'Ctx',
+            'storage': 'Storage', 'process_event_queue': 'Queue', 'log_queue': 'Queue'},
+    returns='Res', raises={'BaseException': []}, frame=['Inst.context', 'Inst._results_map'],
+    note='the `_subprocess_func` argument: ForkProcessRunner._submit_task always passes the bound method ProcessRunner._subprocess_func, '
+         'whose own contract (c70) says it runs run_or_load_task with exactly the filtered_context it was given')
+R.alias('SubFn', '__call__', 'trusted:SubFn.__call__')
+R.contract(f'{FKK}._fork_subprocess_func',
+    params={'_subprocess_func': 'SubFn', 'task': 'Inst', 'task_name': 'Str', 'use_cache': 'Bool', 'process_event_queue': 'Queue', 'log_queue': 'Queue', 'uuid': 'Uuid'},
+    returns='Res',
+    requires=[C("uuid in _RUNNER_FORK_MEMORY", 'the runner registered its memory under this uuid before forking (ForkProcessRunner.__init__), and close() runs after the last task')],
+    at_call={'__call__': [
+        C("arg_filtered_context == filter_ctx(Inst_to_Task(task), _RUNNER_FORK_MEMORY[uuid].context)",
+          'FORK: the child filters the Lab context inherited through the runner memory with the task\'s own filter_context', serves=('C16',)),
+        C("(arg_storage == _RUNNER_FORK_MEMORY[uuid].storage) and (arg_results_map == _RUNNER_FORK_MEMORY[uuid].results_map) and (arg_task == task) and (arg_use_cache == use_cache)",
+          'FORK: storage, results and the task itself are the inherited ones', serves=('C16', 'C01'))]},
+    raises={'BaseException': []}, frame=['Inst.context', 'Inst._results_map'])
+
+# ---- which start method each backend asks for, and that the executor is built with it (C16, C04)
+R.func('ctx_method', ['MpCtx'], 'Str')               # the start method of a multiprocessing context object
+R.contract('trusted:multiprocessing.get_context', trusted=True, params={'method': 'Str'}, returns='MpCtx', pure=True,
+    ensures=["ctx_method(result) == method"], note='multiprocessing.get_context(m) returns the context object whose processes are started with method m')
+R.func('CPU_COUNT', [], 'Int')
+R.axiom("CPU_COUNT() >= 1", name='A-limits: os.cpu_count() is an int >= 1')
+R.contract('trusted:os.cpu_count', trusted=True, params={}, returns='Int', pure=True, defn='CPU_COUNT()')
+R.contract('trusted:multiprocessing.Manager', trusted=True, params={}, returns='Manager', frame=[], note='multiprocessing.Manager(): a manager server process (not tracked)')
+R.contract('trusted:Manager.Queue', trusted=True, self_type='Manager', params={'maxsize': 'Int'}, returns='Queue', frame=[], note='multiprocessing.Manager().Queue(-1): a fresh shared queue')
+R.alias('Manager', 'Queue', 'trusted:Manager.Queue')
+R.contract(f'{PEK}.__init__', self_type='Obj[ProcessExecutor]', params={'mp_context': 'MpCtx', 'max_workers': 'Opt[Int]'},
+    requires=[C("isnone(max_workers) or (unopt(max_workers) >= 1)", 'A-limits: max_workers is None or >= 1')],
+    ensures=[C("self.mp_context == mp_context", 'the executor keeps the context it was given', serves=('C16',)),
+             C("self.max_workers == (CPU_COUNT() if isnone(max_workers) else unopt(max_workers))", 'the worker ceiling is max_workers, or the CPU count when None', serves=('C04', 'C05')),
+             C("INV(self)", 'a new executor satisfies its invariant (nothing queued, nothing running)', serves=('C04', 'C11', 'C01'))],
+    raises={}, frame=['self.*'])
+R.contract(f'{FKK}._get_mp_context', self_type='Obj[ForkProcessRunner]', params={}, returns='MpCtx',
+    ensures=[C("ctx_method(result) == 'fork'", 'the fork backend asks for the fork start method', serves=('C16',))], raises={}, frame=[])
+R.contract(f'{SPK}._get_mp_context', self_type='Obj[SpawnProcessRunner]', params={}, returns='MpCtx',
+    ensures=[C("ctx_method(result) == 'spawn'", 'the spawn backend asks for the spawn start method', serves=('C16',))], raises={}, frame=[])
+
+# the abstract hook and its two implementations, read through the per-class view METHOD
+R.classes[PRK].ghost['START_METHOD'] = 'Str'            # GHOST: the start method this runner class stands for (fixed per class by the views below)
+R.classes[PRK].views['METHOD'] = 'self.START_METHOD'
+R.classes[FKK].views = dict(R.classes[PRK].views, METHOD="'fork'")
+R.classes[SPK].views = dict(R.classes[PRK].views, METHOD="'spawn'")
+R.view_names |= {'METHOD'}
+R.contract(f'{PRK}._get_mp_context', abstract=True, self_type='Obj[ProcessRunner]', params={}, returns='MpCtx',
+    ensures=[C("ctx_method(result) == METHOD(self)", 'the backend\'s own start method', serves=('C16',))], raises={}, frame=[])
+del R.contracts[f'{FKK}._get_mp_context'], R.contracts[f'{SPK}._get_mp_context']
+R.implements(f'{FKK}._get_mp_context', f'{PRK}._get_mp_context', self_type='Obj[ForkProcessRunner]', frame=[])
+R.implements(f'{SPK}._get_mp_context', f'{PRK}._get_mp_context', self_type='Obj[SpawnProcessRunner]', frame=[])
+R.cls('labtech.runners.process:ProcessMonitor', fields={})
+R.classes[PRK].fields['process_monitor'] = 'Obj[ProcessMonitor]'
+R.contract('labtech.runners.process:ProcessMonitor.__init__', trusted=True, self_type='Obj[ProcessMonitor]', params={'process_event_queue': 'Queue'}, frame=['self.*'],
+    note='display only (top-style monitor)')
+R.contract(f'{PRK}.__init__', self_type='Obj[ProcessRunner]', params={'context': 'Ctx', 'storage': 'Storage', 'max_workers': 'Opt[Int]'},
+    requires=[C("isnone(max_workers) or (unopt(max_workers) >= 1)", 'A-limits')],
+    ensures=[C("ctx_method(self.executor.mp_context) == METHOD(self)", 'the executor is built with the backend\'s own start method', serves=('C16',)),
+             C("self.executor.max_workers == (CPU_COUNT() if isnone(max_workers) else unopt(max_workers))", 'and with the Lab\'s worker ceiling', serves=('C04', 'C05')),
+             C("INV(self)", 'a new runner satisfies its invariant', serves=('C11', 'C04')),
+             C("empty(INFLIGHT(self)) and forall('Task', lambda t: t not in RES(self))", 'nothing in flight, nothing held', serves=('C17', 'C01'))],
+    raises={}, frame=['self.*'])
